@@ -321,6 +321,14 @@ def rule_packer_symmetry(ctx: Ctx) -> None:
         if cls.name in ("Bits", "Raw", "NestedPayload", "NodePacker", "VarLenUtf8", "ListOf", "IPv4", "Address", "DefaultStruct", "VarLen", "DefaultArray", "Flags"):
             _layout_agreement(ctx, cls, pk, un, alts, runs)
     ctx.floor("packer-symmetry.paths", n_paths, 14)
+    # decoders hand out fresh values: no memoisation on functions in the packer / payload modules (a cached list would be shared by every decoded message)
+    for m in repo.modules.values():
+        if not (m.relpath.startswith("ipv8/messaging/") and (m.relpath.endswith("payload.py") or m.relpath.endswith("serialization.py") or "lazy_payload" in m.relpath)):
+            continue
+        for f in m.all_functions:
+            memo = [d for d in f.decorator_names() if d.split(".")[-1] in ("lru_cache", "cache", "cached_property")]
+            ctx.check(not memo, "packer-symmetry", f, f.node, f"{f.qualname}: not memoised",
+                      f"{f.qualname} is memoised ({memo}): every message with the same wire bytes decodes to the SAME mutable object, so changing one decoded value changes later decodes")
 
 
 def _layout_agreement(ctx: Ctx, cls: ClassInfo, pk: FuncInfo, un: FuncInfo, alts, runs) -> None:
@@ -402,6 +410,22 @@ def _layout_agreement(ctx: Ctx, cls: ClassInfo, pk: FuncInfo, un: FuncInfo, alts
                     pairs[norm(f.right)] = norm(r.value)
         want = {"ADDRESS_TYPE_IPV4": "offset + 7", "ADDRESS_TYPE_IPV6": "offset + 19", "ADDRESS_TYPE_DOMAIN_NAME": "offset + 5 + length"}
         ctx.check(pairs == want, "packer-symmetry", un, un.node, "Address.unpack: tag -> consumed size (7 / 19 / 5+len)", f"Address.unpack tag/size pairing is {pairs}")
+    if cls.name in ("Address", "IPv4"):
+        # text<->binary address conversion must use inverse partners on both sides (inet_aton accepts legacy notations that inet_pton rejects,
+        # so probing with it turns numeric-looking host names into IPv4 addresses)
+        def conv(f):
+            out = set()
+            for c in calls(f):
+                n = call_name(c)
+                if n in ("inet_aton", "inet_ntoa"):
+                    out.add(("legacy", "AF_INET"))
+                elif n in ("inet_pton", "inet_ntop"):
+                    out.add(("strict", norm(c.args[0]).split(".")[-1]))
+            return out
+        cp, cu = conv(pk), conv(un)
+        ctx.check(cp == cu and bool(cp), "packer-symmetry", pk, pk.node, f"{cls.name}: address text conversion pairs {sorted(cp)} on both sides",
+                  f"{cls.name}: pack converts addresses with {sorted(cp)} but unpack with {sorted(cu)}: the probe accepts strings the decoder would never produce "
+                  "(e.g. inet_aton accepts '10.1'), so a domain name is written as an IPv4 address")
     if cls.name == "NodePacker":
         p = [norm(c.args[0]) for c in calls(pk) if call_name(c) == "pack"]
         u = [norm(c.args[0]) for c in calls(un) if call_name(c) == "unpack"]
